@@ -73,3 +73,18 @@ claim("C03", E1,
       "jaxpr -> SMT with forward-pass generalisation (z3.substitute), QF_NRA+ite decided by a z3 portfolio (default / nlsat / ite-elim) in fresh contexts",
       "DESIGN.md §3 C03, §1.5")
 NOT_APPLICABLE.pop("C03", None)
+
+E2NOTE = ("Python ints -> z3 Int (unbounded), floats -> z3 Real; the real code objects run on proxies and fork at every symbolic "
+          "branch after solver feasibility queries; histories are bounded as listed in the evidence; z3 is trusted; counterexamples "
+          "are replayed by driving the same real code with the model's concrete values.")
+
+claim("C20", E2,
+      "Symbolic execution of the real MemoryLogger / StandardLogger / LoggerList / OrbaxCheckpointer methods: all histories of <=4 "
+      "start/stop/record operations with symbolic lengths, values and optional explicit locations are compared with a list reference; "
+      "the checkpointer's cadence is one inductive step over UNBOUNDED last/step/interval integers (save iff floor(step/f) > "
+      "floor(last/f), exactly one save, path listed only after the save) plus 3-record histories; StandardLogger saves iff the epoch "
+      "count is a multiple of a symbolic interval.",
+      E2NOTE + " orbax is a recording stub: restorability of written directories is outside the claim.",
+      "path-forking symbolic execution of the Python code objects (z3 feasibility + per-path validity queries), inductive step for the cadence",
+      "DESIGN.md §3 C20")
+NOT_APPLICABLE.pop("C20", None)
